@@ -86,6 +86,7 @@ func collectSpecs(repo string) (*SpecDB, error) {
 }
 
 func verifyFunction(P *Program, db *SpecDB, R *Resolver, fs *FuncSpec, fn *ssa.Function) (res *fnResult) {
+	expandProgram = P
 	res = &fnResult{spec: fs, name: fnDisplayName(fn)}
 	e := newEnc(P, db, R)
 	e.topFn = fn
